@@ -1,14 +1,146 @@
 META = dict(
     engine='cosched+seqx',
     technique='stateless model checking: preemption-bounded exhaustive schedule enumeration (CHESS) of concurrent schedule/select on the 11 real scheduler modules over borrowed execution streams of a parsec_init context; plus bounded-exhaustive schedule/select sequences with buffer overflow',
-    level_text='For each of the 11 scheduler modules (selected through mca_sched, installed by parsec_init, flow_init run for every stream): (E1) every interleaving with <= b preemptions (quick: b=1 on the three core scripts per module plus module-specific ones, b=2 for the llp writer scripts, lfq push/push and ll ring-vs-steal, 3-thread script for lfq and llp; thorough: all scripts, 2 streams b=2 for all and b=3 for ll/llp, 3 streams b=1 for all and b=2 for ll/llp/gd) of eight 2-3 thread scripts (ring vs steal, foreign push onto stream 0, two writers, minimal push/push, buffer overflow vs steal, re-schedule with distance, communication-thread push, three active streams); (E2) every sequence of schedule(ring shape, distance)/select operations up to depth 3-4 (quick) / 4-5 (thorough) on 2 streams and depth 3 (quick) / 4 (thorough) on 3 streams (alphabet sizes in the leg names: shapes x distances), ring shapes including rings larger than all bounded buffers; the same through the real __parsec_schedule_vp (next_task retention, dispatch to stream 0, NULL submitter) with selection as in __parsec_get_next_task. Oracle: every select returns NULL or a pending task, never a task twice, and a drain of all streams returns every task handed to schedule.',
-    level_note='Sequential consistency at instrumented accesses to the watched scheduler objects and task links; 2-3 threads, <= 4 operations per thread; select only by the owning thread and foreign schedule only onto stream 0 (the usage contract of scheduling.c); synthetic 2-package hwloc topology; weak-memory effects out of reach.',
+    level_text='For each of the 11 scheduler modules (selected through mca_sched, installed by parsec_init, flow_init run for every stream): (E1) every interleaving with <= b preemptions (quick: b=1 on the three core scripts per module plus module-specific ones, b=2 for the llp writer scripts, lfq push/push and ll ring-vs-steal, 3-thread script for lfq and llp; thorough: all scripts, 2 streams b=2 for all and b=3 for ll/llp, 3 streams b=1 for all and b=2 for ll/llp/gd) of eight 2-3 thread scripts (ring vs steal, foreign push onto stream 0, two writers, minimal push/push, buffer overflow vs steal, re-schedule with distance, communication-thread push, three active streams); (E1g) GENERATED script families on 2 streams for every module: all scripts pre-fill {empty, 2 tasks of priority 100/101 on stream 0, capacity-1 of the local buffer (bounded-buffer modules)} x T0: 1..a ops || T1: 1..b ops (|| communication thread: 1 op) over the alphabet {select(own stream), schedule(own stream or stream 0, distance 0|1, ring from a menu of 2-3 rings of 1..3 tasks with priorities below/above the pre-fill, sorted and unsorted), re-schedule(latest selected task, distance 1)}, minus contract violations, up to the T1/communication-thread symmetry, simplest first, each family under a wall budget (evidence: scripts generated / after contract / explored / completed per module) - quick: (1,1) b=1 all modules, (1,1) b=2 on llp/ll/lfq/pbq, (2,1) b=1; thorough: (1,1) b=1 and b=2, (2,1) and (1,2) b=1, (2,2) b=2 (lock-free modules) and (1,1,1) b=1; same oracle; (E2) every sequence of schedule(ring shape, distance)/select operations up to depth 3-4 (quick) / 4-5 (thorough) on 2 streams and depth 3 (quick) / 4 (thorough) on 3 streams (alphabet sizes in the leg names: shapes x distances), ring shapes including rings larger than all bounded buffers; the same through the real __parsec_schedule_vp (next_task retention, dispatch to stream 0, NULL submitter) with selection as in __parsec_get_next_task. Oracle: every select returns NULL or a pending task, never a task twice, and a drain of all streams returns every task handed to schedule.',
+    level_note='Sequential consistency at instrumented accesses to the watched scheduler objects and task links; 2-3 threads, <= 4 operations per thread; generated families are cut by a wall budget on a loaded machine (exhaustive:false for the leg of that module, scripts_explored < scripts_after_symmetry); select only by the owning thread and foreign schedule only onto stream 0 (the usage contract of scheduling.c); synthetic 2-package hwloc topology; weak-memory effects out of reach.',
 )
-RULE = ("cosched legs: every schedule of the 2-3 thread script with at most b preemptions, scheduling points = instrumented accesses of libparsec to the "
+RULE = ("cosched legs (hand-written scripts, and every script of the generated families 'family/g<shape>_b<bound>_<module>': see the leg's alphabet, scripts_generated / _after_contract / _after_relevance / _after_symmetry / _explored / _completed): every schedule of the 2-3 thread script with at most b preemptions, scheduling points = instrumented accesses of libparsec to the "
         "module's shared queues (lists, dequeues, lifo heads, bounded-buffer slots, ltq heaps) and to the tasks' links; non-trivial = schedule with >= 1 preemption; "
         "states = nodes of the schedule tree. seqx legs: every operation sequence of length 1..D from a pristine scheduler followed by a full drain; "
         "non-trivial = a bounded buffer overflowed into the system dequeue or a task was returned on another stream than it was scheduled on; states = sequences executed")
 MODS = ['ap', 'gd', 'ip', 'lfq', 'lhq', 'll', 'llp', 'ltq', 'pbq', 'rnd', 'spq']
+
+
+# ---- generated (bounded-exhaustive) script families: c08gen.py enumerates, conc_h.c parses the script text; see NOTES.md ----
+# label, shape (ops per thread; 3rd thread = communication thread), threads with exactly that many ops, ring menu per thread,
+# modules that get the capacity-1 pre-fill, preemption bound, modules (None = all 11), wall budget in s, scripts per engine invocation
+LOCKFREE = ['llp', 'll', 'lfq', 'pbq', 'ltq', 'lhq']
+FAMILIES = {
+    'quick': [
+        dict(label='g11_b1', shape=(1, 1), exact=(), rings=('mini', 'core'), cmods=('lfq', 'pbq', 'ltq'), bound=1, allow=0.6, mods=None, budget=25, batch=12),
+        dict(label='g11_b2', shape=(1, 1), exact=(), rings=('mini', 'mini'), cmods=(), bound=2, allow=3, mods=['llp', 'll', 'lfq', 'pbq'], budget=8, batch=2),
+        dict(label='g21_b1', shape=(2, 1), exact=(0,), rings=('mini', 'mini'), cmods=(), bound=1, allow=0.6, mods=None, budget=7, batch=6),
+    ],
+    'thorough': [
+        dict(label='g11_b1', shape=(1, 1), exact=(), rings=('core', 'core'), cmods=('lfq', 'pbq', 'ltq', 'lhq'), bound=1, allow=0.6, mods=None, budget=60, batch=16),
+        dict(label='g11_b2', shape=(1, 1), exact=(), rings=('core', 'core'), cmods=('lfq', 'pbq', 'ltq'), bound=2, allow=3, mods=None, budget=90, batch=4),
+        dict(label='g21_b1', shape=(2, 1), exact=(0,), rings=('mini', 'core'), cmods=('lfq', 'pbq', 'ltq'), bound=1, allow=0.6, mods=None, budget=35, batch=16),
+        dict(label='g12_b1', shape=(1, 2), exact=(1,), rings=('mini', 'core'), cmods=('lfq', 'pbq', 'ltq'), bound=1, allow=0.6, mods=None, budget=35, batch=16),
+        dict(label='g22_b2', shape=(2, 2), exact=(0, 1), rings=('mini', 'mini'), cmods=(), bound=2, allow=8, mods=LOCKFREE, budget=50, batch=2),
+        dict(label='g111_b1', shape=(1, 1, 1), exact=(), rings=('mini', 'mini', 'core'), cmods=(), bound=1, allow=3, mods=None, budget=70, batch=8),
+    ],
+}
+
+
+def gen_family(ctx, conc, f, procs, jobs):
+    """Explore one generated family on every module: parallel engine invocations over batches of scripts (round-robin over the
+    modules, simplest scripts first) until everything is done or the wall budget is used up; one aggregated evidence leg per module."""
+    import os, sys, json, time, statistics, vlib
+    from concurrent.futures import ThreadPoolExecutor
+    sys.path.insert(0, os.path.dirname(os.path.abspath(__file__)))
+    import c08gen
+    mods = f['mods'] or MODS
+    fam = {}
+    for m in mods:
+        pre = ['E', 'H'] + (['C'] if m in f['cmods'] else [])
+        counts, names, alphabet = c08gen.family2(m, f['shape'], f['rings'], pre, f['exact'])
+        fam[m] = dict(counts=counts, names=names, alphabet=alphabet, prefills=pre)
+    # Per module: its scripts in order, cut into batches.  Dispatch = fair TIME share: a free worker takes the next batch of the module
+    # that has used the least wall time so far (divided by its weight), so cheap modules (ll: ~10 schedules per script) get through
+    # more scripts than expensive ones (rnd: ~90) instead of everybody advancing at the pace of the slowest.  The six modules with
+    # lock-free queues (lifo / bounded-buffer code: where a scheduling mistake is a lost or duplicated task rather than a blocked thread)
+    # have weight 2, the lock-based ones 1.  On an idle machine every module completes and the order does not matter.
+    import threading
+    queue = {m: [(i // f['batch'], fam[m]['names'][i:i + f['batch']]) for i in range(0, len(fam[m]['names']), f['batch'])] for m in mods}
+    used = {m: 0.0 for m in mods}; done = {m: [] for m in mods}; weight = {m: (2.0 if m in LOCKFREE else 1.0) for m in mods}
+    lock = threading.Lock()
+    t0 = time.time(); t_end = t0 + f['budget']
+    mine = 'fam:%s:' % f['label']
+    nviol0 = len(ctx.violations)
+    os.makedirs(os.path.join(vlib.OUT, 'gen'), exist_ok=True)
+    def worker(_):
+        while True:
+            with lock:
+                left = t_end - time.time()
+                cand = [m for m in mods if queue[m]]
+                if not cand or left < 1.0 or len(ctx.violations) >= nviol0 + 3:
+                    return      # done, or budget used up (or violations already reported): the rest is not explored -> exhaustive:false
+                m = min(cand, key=lambda x: (used[x] / weight[x], mods.index(x)))
+                i, part = queue[m].pop(0)
+                est = (sum(done[m]) / len(done[m])) if done[m] else 1.0     # booked at once (corrected when the batch returns) so that the workers spread over the modules
+                used[m] += est
+            gf = os.path.join(vlib.OUT, 'gen', 'C08-%s-%s-%d-%d.txt' % (f['label'], m, i, os.getpid()))
+            open(gf, 'w').write('\n'.join(part) + '\n')
+            dl = max(2, int(left), int(f['allow'] * len(part) + 0.999))      # a started batch may always use `allow` seconds per script
+            tb = time.time()
+            ctx.run_engine(conc, ['--sched', m, '--streams', '2', '--gen-file', gf, '--bound', str(f['bound']), '--scenario', 'all', '--jobs', str(jobs),
+                                  '--deadline', str(dl), '--outdir', vlib.OUT], label='%s%s:%d' % (mine, m, i), timeout=dl + 300)
+            with lock:
+                used[m] += (time.time() - tb) - est; done[m].append(time.time() - tb)
+            try: os.unlink(gf)
+            except OSError: pass
+    with ThreadPoolExecutor(max_workers=procs) as ex:
+        list(ex.map(worker, range(procs)))
+    raw = [l for l in ctx.legs if str(l.get('leg', '')).startswith(mine)]
+    ctx.legs[:] = [l for l in ctx.legs if not str(l.get('leg', '')).startswith(mine)]
+    tot = dict(scripts=0, explored=0, completed=0, executions=0, single=0)
+    for m in mods:
+        legs = [l for l in raw if l['leg'].split(':')[2] == m]
+        pos = {nm: i for i, nm in enumerate(fam[m]['names'])}
+        legs.sort(key=lambda l: pos.get(l['name'], 0))
+        complete = [l for l in legs if l.get('exhaustive')]
+        outs = [int(l.get('distinct_outcomes', 0)) for l in (complete or legs)]
+        samples = []
+        for l in sorted(legs, key=lambda l: -int(l.get('distinct_outcomes', 0)))[:2]:
+            for sm in l.get('samples', [])[:1]:
+                samples.append(dict(sm, script=l['name']))
+        c = fam[m]['counts']
+        nviol = sum(int(l.get('violations', 0)) for l in legs)
+        ctx.add_leg(name='%s_%s' % (f['label'], m), leg='family', engine='cosched', module=m, shape=list(f['shape']), exact_threads=list(f['exact']),
+                    prefills=fam[m]['prefills'], bound=f['bound'], alphabet_before_contract=fam[m]['alphabet'],
+                    scripts_generated=c['generated'], scripts_after_contract=c['after_contract'], scripts_after_relevance=c['after_relevance'],
+                    scripts_after_symmetry=c['after_symmetry'], scripts_explored=len(legs), scripts_completed=len(complete),
+                    states=sum(int(l.get('states', 0)) for l in legs), transitions=sum(int(l.get('transitions', 0)) for l in legs),
+                    executions=sum(int(l.get('executions', 0)) for l in legs), nontrivial=sum(int(l.get('nontrivial', 0)) for l in legs),
+                    distinct_outcomes=sum(outs), outcomes_per_script=dict(min=min(outs), median=statistics.median(outs), max=max(outs)) if outs else {},
+                    single_outcome_scripts=sum(1 for o in outs if o <= 1), max_points=max([int(l.get('max_points', 0)) for l in legs] or [0]),
+                    exhaustive=(len(complete) == c['after_symmetry']), violations=nviol, last_script_explored=legs[-1]['name'] if legs else None, samples=samples)
+        tot['scripts'] += c['after_symmetry']; tot['explored'] += len(legs); tot['completed'] += len(complete)
+        tot['executions'] += sum(int(l.get('executions', 0)) for l in legs); tot['single'] += sum(1 for o in outs if o <= 1)
+        # vacuity guard: a family whose scripts all have one outcome collides with nothing
+        if len(complete) >= 8 and max(outs) <= 1 and not nviol:
+            ctx.broken.append('family %s on %s: every one of the %d explored scripts has a single outcome: the alphabet collides with nothing' % (f['label'], m, len(complete)))
+    sys.stderr.write('C08 family %s (bound %d, %d modules): %d scripts, explored %d (complete %d), %d schedules, %d single-outcome scripts, %.1fs\n'
+                     % (f['label'], f['bound'], len(mods), tot['scripts'], tot['explored'], tot['completed'], tot['executions'], tot['single'], time.time() - t0))
+    # the replay file of a generated script is self-contained (scenario = script text); add the expansion for the reader
+    for rp, lab in ctx.violations[nviol0:]:
+        try:
+            o = json.load(open(rp))
+            if '_g_' in o.get('scenario', ''):
+                o['script'] = c08gen.describe(o['scenario']); o['script_text'] = o['scenario']
+                json.dump(o, open(rp, 'w'), separators=(',', ':'))      # compact: cosched's replay reader looks for "scenario":" and "choices":[
+        except (OSError, ValueError):
+            pass
+
+
+def families(ctx, conc):
+    import os, vlib
+    # the scripts are small (10-100 schedules at bound 1): one worker per invocation, one invocation per core; measured under load:
+    # 2 workers per invocation are slower than 1 for these sizes (two forks per script).  Bound 2: half the invocations, 2 workers each
+    import time
+    fams = FAMILIES[ctx.tier]
+    sel = os.environ.get('C08_FAMILIES')                   # development: comma-separated labels
+    scale = float(os.environ.get('C08_BUDGET_SCALE', '1'))  # development: multiply the wall budgets
+    if ctx.tier == 'thorough' and 'C08_BUDGET_SCALE' not in os.environ:
+        # the hand-written legs have a budget of 840 s but need ~400 s when the machine is not overloaded: the families get what is left
+        # of the tier's ~20 minutes (never less than their nominal budgets, at most 3 times as much)
+        scale = max(1.0, min(3.0, (1080 - (time.time() - ctx.t0)) / sum(f['budget'] for f in fams)))
+    for f in fams:
+        if sel and f['label'] not in sel.split(','):
+            continue
+        procs, jobs = (max(1, min(16, vlib.NJOBS)), 1) if f['bound'] <= 1 else (max(1, min(8, vlib.NJOBS // 2)), 2)
+        gen_family(ctx, conc, dict(f, budget=f['budget'] * scale), procs, jobs)
+
 
 def build(ctx):
     from concurrent.futures import ThreadPoolExecutor
@@ -25,15 +157,16 @@ def check(ctx):
     seq, conc = build(ctx)
     built = time.time() - ctx.t0
     quick = ctx.tier == 'quick'
+    which = os.environ.get('C08_ONLY', '')       # development switch: 'gen' = generated families only, 'hand' = hand-written scripts / sequences only
     jobs = []     # (label, exe, args, deadline)
-    for m in MODS:
+    for m in (MODS if which in ('', 'hand') else []):
         if quick:
             jobs.append(('seq_%s_k2' % m, seq, ['--sched', m, '--streams', '2', '--config', '3:4:2', '--config', '4:3:1', '--config', '3:3:2:1'], 60))
             jobs.append(('seq_%s_k3' % m, seq, ['--sched', m, '--streams', '3', '--config', '3:3:1', '--config', '2:3:2:1'], 60))
         else:
             jobs.append(('seq_%s_k2' % m, seq, ['--sched', m, '--streams', '2', '--config', '3:4:2:1', '--config', '5:3:1', '--config', '4:4:3'], 500))
             jobs.append(('seq_%s_k3' % m, seq, ['--sched', m, '--streams', '3', '--config', '3:3:2:1', '--config', '4:3:2'], 500))
-    for m in MODS:
+    for m in (MODS if which in ('', 'hand') else []):
         if quick:
             # quick: bound 1, three core scripts per module (+ the module-specific ones), bound 2 where the lock-free merge / lifo code is
             only = ['sched_vs_steal', 'two_writers', 'resched', 'detach_vs_ring2'] + {'llp': ['foreign_push', 'push_push', 'detach_vs_ring3'], 'lfq': ['overflow', 'push_push'], 'pbq': ['overflow'], 'lhq': ['foreign_push']}.get(m, [])
@@ -49,7 +182,7 @@ def check(ctx):
                 b = (3 if m in ('ll', 'llp') else 2) if k == 2 else (2 if m in ('ll', 'llp', 'gd') else 1)
                 jobs.append(('conc_%s_k%d_b%d' % (m, k, b), conc, ['--sched', m, '--streams', str(k), '--bound', str(b), '--scenario', 'all', '--jobs', '3', '--deadline', '600'], 600))
     # global wall budget: jobs started late get what is left (exhaustive:false if cut); the legs always get >= 45 s
-    ctx.set_budget(max(85, built + 45) if quick else 1080)
+    ctx.set_budget(max(85, built + 45) if quick else 840)
     def one(j):
         label, exe, args, dl = j
         if not (quick and label in ('conc_llp_k2', 'conc_lfq_k2', 'conc_ll_k2')):      # the bound-2 legs of the quick tier always get their full deadline
@@ -64,6 +197,8 @@ def check(ctx):
     jobs.sort(key=lambda j: ((1 if j[0].startswith('conc') else 0) if quick else (0 if j[0].startswith('seq_lhq') else 1 if j[0].startswith('conc') else 2), 0 if j[0].split('_')[1] in slow else 1))
     with ThreadPoolExecutor(max_workers=max(2, vlib.NJOBS // 2) + (0 if quick else 2)) as ex:
         list(ex.map(one, jobs))
+    if which in ('', 'gen'):
+        families(ctx, conc)
     ctx.legs.sort(key=lambda l: (l.get('leg', ''), l.get('name', '')))
     return ctx.finish(RULE, ["sequential consistency at instrumented accesses (no weak-memory effects)",
                              "usage contract of scheduling.c: select(es_i) only from the thread owning stream i; schedule from a foreign thread only onto stream 0",
